@@ -1416,6 +1416,9 @@ func (x *c10Ctx) ruleR1Atomic(inserts []*ssa.BasicBlock) {
 		where := w.Pos(sc.site.Pos())
 		if ifi, isIf := sc.site.(*ssa.If); isIf {
 			where = w.Pos(ifi.Cond.Pos())
+			if ex, isEx := ifi.Cond.(*ssa.Extract); isEx {
+				where = w.Pos(ex.Tuple.Pos())
+			}
 		}
 		// a helper that takes the service lock itself gives it back before it returns
 		own := ""
